@@ -212,7 +212,7 @@ class World:
             assert isinstance(ph, nw.AbstractMissingStream)
             ph.disconnect()
         elif op == 'unit_disconnect':
-            U[a['u']].disconnect(join_ends=a['join'])
+            U[a['u']].disconnect(discard=bool(a.get('discard')), join_ends=a['join'])       # discarding only leaves the registry
         elif op == 'unit_disconnect_sel':
             unit = U[a['u']]
 
@@ -238,7 +238,9 @@ class World:
             oa = [self._x(x) for x in a['oa']]
             # an empty tuple means "create new streams" for the constructor; the spec's empty
             # argument means "no streams given"
-            self.units[a['u']] = unit_class(*spec)('.' + a['u'], ins=(ia if ia else None), outs=(oa if oa else None))
+            # a single stream may be passed bare instead of in a list (a['bare'])
+            bare = lambda xs: xs[0] if a.get('bare') and len(xs) == 1 and xs[0] is not None else xs
+            self.units[a['u']] = unit_class(*spec)('.' + a['u'], ins=(bare(ia) if ia else None), outs=(bare(oa) if oa else None))
         else:
             raise KeyError(op)
         return NONE
@@ -280,14 +282,14 @@ def candidates(universe, st, rng, per_op=3, max_len=2, max_xs=2):
         'disconnect_sink': lambda: dict(x=rng.choice(streams)),
         'disconnect': lambda: dict(x=rng.choice(streams)),
         'ph_disconnect': lambda: dict(side=rng.choice(sides), u=rng.choice(units), i=rng.choice(idx)),
-        'unit_disconnect': lambda: dict(u=rng.choice(units), join=rng.random() < 0.5),
+        'unit_disconnect': lambda: dict(u=rng.choice(units), join=rng.random() < 0.5, discard=rng.random() < 0.4),
         'unit_disconnect_sel': lambda: dict(u=rng.choice(units), ii=rng.choice([[], [1], [2], [1, 2]]), oi=rng.choice([[], [1], [2]]), bs=rng.random() < 0.5),
         'unit_insert': lambda: dict(u=rng.choice(units), x=rng.choice(streams), ik=rng.choice([0, 0, 1, 2]), ok=rng.choice([0, 0, 1, 2])),
         'take_place_of': lambda: dict(u=rng.choice(units), v=rng.choice(units)),
         'replace_with': lambda: dict(u=rng.choice(units), v=rng.choice(units)),
         'replace_with_none': lambda: dict(u=rng.choice(units)),
         'reconnect': lambda: dict(src=rng.choice(units + [NONE]), si=rng.choice(idx), x=rng.choice(streams), ki=rng.choice(idx), snk=rng.choice(units + [NONE])),
-        'construct': lambda: dict(u=rng.choice(units), ia=rng.choice(XS), oa=rng.choice(XS)),
+        'construct': lambda: dict(u=rng.choice(units), ia=rng.choice(XS), oa=rng.choice(XS), bare=rng.random() < 0.5),
     }
     out = []
     for op, g in gens.items():
